@@ -90,6 +90,10 @@ type Call struct {
 	// built before the tasks start and shared by every call (of any task) that sets this flag -
 	// the way a server keeps one options value.  Otherwise each call gets a fresh one.
 	ShareOpts bool `json:"share_opts,omitempty"`
+	// Corrupt (DecodePatch only, > 0): the caller does not use the decoded Patch as it is but a
+	// hand-assembled copy in which one raw message (chosen by this number) is torn, emptied or nil -
+	// Patch is an exported map type and callers do build values by hand.  C04 excludes such values.
+	Corrupt int `json:"corrupt,omitempty"`
 
 	// in-run decisions, recorded in generate mode and followed in replay mode
 	Tape     []uint32       `json:"tape,omitempty"`
@@ -207,6 +211,7 @@ func (s *Scenario) ShapeHash() uint64 {
 			wr(s.Bufs[c.B])
 		}
 		wi(int64(c.Slot))
+		wi(int64(c.Corrupt))
 		b := int64(0)
 		for i, f := range []bool{c.Opts.Neg, c.Opts.Allow, c.Opts.Ensure, c.Opts.Escape, c.PrivA, c.PrivB, c.ShareOpts} {
 			if f {
